@@ -19,6 +19,8 @@ CHECKS = {
          "deterministic simulation: metadata relocation model over seeded header sets"),
  "C09": ("fault_enumeration", "Single faults are enumerated on a corpus of small scenarios covering every adapter path: every request cut offset (clean and error), every response cut offset, every flag byte value, every single-bit flip of compressed payloads, frame-length and Content-Length mis-statements; an independent strict parser decides malformedness; thorough is the complete enumeration, quick a seeded sample.",
          "deterministic simulation: exhaustive single-fault enumeration (crash points on both streams) with a reference stream parser as oracle"),
+ "C11": ("exploration", "Hostile raw client requests, protocol-breaking scripted backends and transport faults (cuts, client gone, cancellation, handler panics, I/O after return) are drawn per run; no panic may escape ServeHTTP, the world must reach quiescence with all tasks finished, and the response-writer contract model must see one head and a consistent body.",
+         "deterministic simulation with fault injection: seeded hostile workloads, quiescence-based termination and response-writer contract monitors"),
  "C08": ("exploration", "I/O segmentation is the schedule: every scenario is run atomically and under drawn segmentations of deliveries, handler read sizes, handler writes/flushes and scheduling policies; metamorphic equality of handler-visible request bytes and canonical client outcome.",
          "deterministic simulation: atomic-vs-segmented differential under seeded I/O schedules"),
 }
